@@ -933,6 +933,10 @@ def dim_of(a):
         return a.args[0].args[0], a.args[1].args[0]
     if isinstance(a, S) and a.op == "meth" and a.args[1] == "size" and len(a.args) == 3 and isinstance(a.args[2], S) and a.args[2].op == "const":
         return a.args[0], a.args[2].args[0]
+    # tensor.size()[k]  (also what tuple unpacking `b, n, d = tensor.size()` produces)
+    if isinstance(a, S) and a.op == "sub" and isinstance(a.args[0], S) and a.args[0].op == "meth" and a.args[0].args[1] == "size" and len(a.args[0].args) == 2 \
+            and isinstance(a.args[1], S) and a.args[1].op == "const" and isinstance(a.args[1].args[0], int):
+        return a.args[0].args[0], a.args[1].args[0]
     return None
 
 
